@@ -23,9 +23,31 @@ contract(f"{RT}:Router.gn_data_request_shb", props=["C02", "C20", "C01"], shapes
                   "accepted_iff_handed_over": "(result.result_code.value == 1) == (n_sent() == 1 or self.link_layer is None)",
                   "basic_hop_limit_1": "implies(n_sent() == 1, frame_basic_ok(sent0(), 1, 1))",
                   "lifetime_is_best_for_request": "implies(n_sent() == 1, frame_lifetime_ms(sent0()) == best_ms(requested_ms_int(request.max_packet_lifetime, self.mib.itsGnDefaultPacketLifetime)))",
-                  "common_header": "implies(n_sent() == 1, sent0()[4:12] == common_int(request.upper_protocol_entity.value, 5, 0, tc_int(request.traffic_class), self.mib.itsGnIsMobile.value, request.length, 1).to_bytes(8, 'big'))",
+                  "common_header": "implies(n_sent() == 1, sent0()[4:12] == common_bytes(request.upper_protocol_entity, request.packet_transport_type.header_type, request.packet_transport_type.header_subtype, request.traffic_class, self.mib.itsGnIsMobile.value, request.length, 1))",
                   "so_pv_is_ego": "implies(n_sent() == 1, sent0()[12:36] == lpv_int(self.ego_position_vector).to_bytes(24, 'big'))",
                   "media_dependent_zero": "implies(n_sent() == 1, sent0()[36:40] == bytes(4))",
                   "payload": "implies(n_sent() == 1, sent0()[40:] == request.data)"},
          canary={"mhl_from_request": "implies(n_sent() == 1, be(sent0(), 10, 1) == request.max_hop_limit)"},
          cover=["n_sent() == 1", "n_sent() == 0"], **S)
+
+# ---------------------------------------------------------------- GBC / GAC source operation (unsecured profiles)
+GBC_PRE = PRE + ["request_ok(request)", "area_ok(request.area)", "request.security_profile.value != 2",
+                 "self.mib.itsGnMaxGeoAreaSize >= 0"]
+GBC_POST = {
+    "at_most_one_frame": "n_sent() <= 1",
+    "oversize_refused": "implies(area_size_m2(request.packet_transport_type.header_subtype.value, request.area.a, request.area.b) > self.mib.itsGnMaxGeoAreaSize * 1000000, result.result_code.value == 6 and n_sent() == 0)",
+    "scope_code_only_when_oversize": "implies(result.result_code.value == 6, area_size_m2(request.packet_transport_type.header_subtype.value, request.area.a, request.area.b) > self.mib.itsGnMaxGeoAreaSize * 1000000)",
+    "sequence_number_consumed_once": "implies(result.result_code.value != 6, self.sequence_number == (old(self.sequence_number) + 1) % 65535)",
+    "basic_hop_limit": "implies(n_sent() == 1, frame_basic_ok(sent0(), 1, hop_limit_for(request, self.mib)))",
+    "lifetime_is_best_for_request": "implies(n_sent() == 1, frame_lifetime_ms(sent0()) == best_ms(requested_ms_int(request.max_packet_lifetime, self.mib.itsGnDefaultPacketLifetime)))",
+    "common_header": "implies(n_sent() == 1, sent0()[4:12] == common_bytes(request.upper_protocol_entity, request.packet_transport_type.header_type, request.packet_transport_type.header_subtype, request.traffic_class, self.mib.itsGnIsMobile.value, request.length, hop_limit_for(request, self.mib)))",
+    "extended_header": "implies(n_sent() == 1, sent0()[12:56] == gbc_ext_bytes(self.sequence_number, self.ego_position_vector, request.area))",
+    "payload": "implies(n_sent() == 1, sent0()[56:] == request.data)",
+}
+for _name, _ptt in (("gbc", PTT_GBC), ("gac", PTT_GAC)):
+    contract(f"{RT}:Router.gn_data_request_{_name}", props=["C02", "C20", "C01", "C07"],
+             shapes={"self": ROUTER, "request": gnreq(_ptt)}, requires=GBC_PRE, modifies=["self.sequence_number"],
+             ensures=GBC_POST, cover=["n_sent() == 1", "result.result_code.value == 6"],
+             inline=[f"{RT}:Router.gn_data_request_gbc"] if _name == "gac" else [],
+             canary={"default_hop_limit_always": "implies(n_sent() == 1, be(sent0(), 3, 1) == self.mib.itsGnDefaultHopLimit)"},
+             **S)
